@@ -84,7 +84,7 @@ class MethodFacts:
         self.decorated = None
 
 
-def level_facts(py: PyRepo, ci: ClassInfo, meth: str) -> MethodFacts | None:
+def level_facts(py: PyRepo, ci: ClassInfo, meth: str, _depth: int = 0) -> MethodFacts | None:
     if meth not in ci.methods:
         return None
     fn = ci.methods[meth]
@@ -166,7 +166,58 @@ def level_facts(py: PyRepo, ci: ClassInfo, meth: str) -> MethodFacts | None:
             if b is True and c[0] == 'cmp' and c[1] == '==':
                 rec['binds'].append((c[2], c[3]))
         (mf.paths if p.end[0] != 'raise' else mf.raises).append(rec)
+    if _depth < 2:
+        _inline_helpers(py, ci, mf, _depth)
     return mf
+
+
+def _subst_params(v, mapping):
+    if isinstance(v, tuple):
+        if v in mapping:
+            return mapping[v]
+        return tuple(_subst_params(x, mapping) if isinstance(x, tuple) else x for x in v)
+    return v
+
+
+def _inline_helpers(py: PyRepo, ci: ClassInfo, mf: MethodFacts, depth: int):
+    """`self._emit(a, b)` style helpers of the same class hierarchy: their writes / pushes count as the caller's (one level)"""
+    for rec in mf.paths:
+        for o in list(rec['other']):
+            if o[0] != 'selfcall' or o[1] in INTERP_METHODS:
+                continue
+            hit = py.find_method(ci, o[1])
+            if hit is None:
+                continue
+            owner, hfn = hit
+            if any(isinstance(n, (ast.For, ast.While)) for n in ast.walk(hfn)):
+                continue
+            try:
+                hf = level_facts(py, owner, o[1], depth + 1)
+            except AnalysisError:
+                continue
+            if hf is None or len(hf.paths) != 1:
+                continue
+            h = hf.paths[0]
+            hparams = [a.arg for a in hfn.args.args[1:]]
+            mapping = {('param', pn): av for pn, av in zip(hparams, o[2])}
+            if hfn.args.vararg is not None:
+                mapping[('star', ('param', '*' + hfn.args.vararg.arg))] = ('star', ('tuple', tuple(o[2][len(hparams):])))
+                mapping[('param', '*' + hfn.args.vararg.arg)] = ('tuple', tuple(o[2][len(hparams):]))
+            for w in h['writes']:
+                w2 = _subst_params(w, mapping)
+                # bytes([*args]) with a literal tuple: flatten
+                el = bytes_elts(w2)
+                if el is not None:
+                    flat = []
+                    for e in el:
+                        if e[0] == 'star' and e[1][0] in ('tuple', 'list'):
+                            flat.extend(e[1][1])
+                        else:
+                            flat.append(e)
+                    w2 = ('call', ('name', 'bytes'), (('list', tuple(flat)),), ())
+                rec['writes'].append(w2)
+            rec['pushes'] += [_subst_params(x, mapping) for x in h['pushes']]
+            rec['mem'] += [_subst_params(x, mapping) for x in h['mem']]
 
 
 def chain(py: PyRepo, cls_name: str) -> list[ClassInfo]:
